@@ -75,6 +75,10 @@ def cases(tier):
     consumer = f"Consumer {H} IMPORTS va, vb, vc FROM Constants; Rec ::= SEQUENCE {{ a INTEGER DEFAULT 1 }} END"
     out.append(("associated type imports, repeated at once", [[consumer, consts, kinds], [consumer, consts, kinds]]))
     out.append(("associated type imports, sources permuted", [[consumer, consts, kinds], [kinds, consts, consumer]]))
+    # two compilers are SET UP before either runs (state kept per process and re-armed by constructing a backend would show)
+    unsup = f"Uu {H} Temperature ::= REAL Clock ::= TIME Pressure ::= REAL Kept ::= SEQUENCE {{ a INTEGER (0..{P1}) }} vv INTEGER ::= {P2} END"
+    out.append(("two compilers set up before either runs, same input", [[unsup], [unsup]], None, 'pair'))
+    out.append(("two compilers set up before either runs, different inputs", [first, [unsup], first], (0, 2), 'pair3'))
     return out
 
 
@@ -95,6 +99,7 @@ def run_job(prog_unused, job, tier, seed):
     case = cases(tier)[int(job[4:])]
     name, variants = case[0], case[1]
     compare = case[2] if len(case) > 2 else None
+    mode = case[3] if len(case) > 3 else None
     v = [z3.BitVec('p1', 128), z3.BitVec('p2', 128)]
     sub = {P1: v[0], P2: v[1]}
     sig = f"C11 {name}"
@@ -105,6 +110,16 @@ def run_job(prog_unused, job, tier, seed):
         def run(ex):
             ex.assume(z3.And(v[0] >= 1, v[1] >= -5))
             outs = []
+            if mode == 'pair':
+                ex.ghost['pipe_subst_count'] = 0
+                ra, rb = pp.compile_pair(ex, variants[0], variants[1], sub)
+                return [ra + (1, 0), rb + (1, 0)]
+            if mode == 'pair3':
+                # first alone, then [other, first] set up together: the second result of the pair against the first alone
+                ex.ghost['pipe_subst_count'] = 0
+                r0 = pp.compile(ex, variants[0], sub)
+                ra, rb = pp.compile_pair(ex, variants[1], variants[2], sub)
+                return [r0 + (1, 0), ra + (1, 0), rb + (1, 0)]
             for srcs in variants:
                 ex.ghost['pipe_subst_count'] = 0
                 h0 = ex.ghost.get('hash_iterations', 0)
@@ -146,6 +161,23 @@ def run_job(prog_unused, job, tier, seed):
                 sa, sb = conc(variants[i], vals), conc(variants[j], vals)
                 def differ(ra, rb):
                     return not (ra.get('ok') == rb.get('ok') and (not ra.get('ok') or (norm(ra['generated']) == norm(rb['generated']) and len(ra['warnings']) == len(rb['warnings']))))
+                if mode in ('pair', 'pair3'):
+                    fresh = native.Runner()
+                    try:
+                        if mode == 'pair':
+                            o = fresh.call({'cmd': 'compile_pair', 'a': conc(variants[0], vals), 'b': conc(variants[1], vals), 'config': {}})
+                            same = not differ(o['a'], o['b'])
+                        else:
+                            alone = fresh.compile(conc(variants[0], vals))
+                            o = fresh.call({'cmd': 'compile_pair', 'a': conc(variants[1], vals), 'b': conc(variants[2], vals), 'config': {}})
+                            same = not differ(alone, o['b'])
+                    finally:
+                        fresh.close()
+                    if not same:
+                        chk.violation(sig, f"{msg} [values {vals}] (two compilers set up before either runs; native replay differs too): {sa!r}", {'kind': mode, 'sources': [conc(s, vals) for s in variants]})
+                    else:
+                        chk.res.inconclusive.append(f"not reproduced natively: {sig}: {msg[:300]}")
+                    continue
                 if compare:
                     same = True      # only the history replay below can confirm
                 else:
@@ -197,7 +229,15 @@ def replay_file(path):
     rp = d.get('replay', d)
     runner = native.Runner()
     try:
-        if rp.get('kind') == 'history':
+        if rp.get('kind') in ('pair', 'pair3'):
+            if rp['kind'] == 'pair':
+                o = runner.call({'cmd': 'compile_pair', 'a': rp['sources'][0], 'b': rp['sources'][1], 'config': {}})
+                ra, rb = o['a'], o['b']
+            else:
+                ra = runner.compile(rp['sources'][0])
+                rb = runner.call({'cmd': 'compile_pair', 'a': rp['sources'][1], 'b': rp['sources'][2], 'config': {}})['b']
+            same = ra.get('ok') == rb.get('ok') and (not ra.get('ok') or (norm(ra['generated']) == norm(rb['generated']) and len(ra['warnings']) == len(rb['warnings'])))
+        elif rp.get('kind') == 'history':
             outs = [runner.compile(s) for s in rp['sources']]
             same = outs[0].get('generated') == outs[-1].get('generated')
         else:
